@@ -343,6 +343,9 @@ def edits_v3(ver, t, rng, heavy):
     yield "/" + mk(pre, t)
     yield " " + mk(pre, t)
     yield mk(pre, t) + " "
+    for a, z in WRAPPERS:
+        yield a + mk(pre, t) + z                                 # the whole vector quoted / bracketed, as in advisories
+        yield pre + "/" + a + "/".join(t) + z if t else a + pre + z   # ... only the metrics
     yield mk(pre, t) + "\n"
     for p in ["CVSS:3.2", "CVSS:2.0", "CVSS:4.0", "CVSS:3", "CVSS:3.10", "CVSS:", "CVSS", "cvss:" + ver, "CVSS:" + ver + ":", "CVSS" + ver,
               "CVSS::" + ver, ver, ":" + ver, "CVSS: " + ver, "CVSS:" + ver + " ", "", "CVSS:3.1/CVSS:3.0", "(" + pre, "CVSS:unknown",
@@ -391,6 +394,8 @@ def unicode_ops(rng, kinds, valid):
             ops.append(_op(kind, rng.below(3), t))
     return ops
 
+
+WRAPPERS = [("(", ")"), ("[", "]"), ("{", "}"), ("<", ">"), ('"', '"'), ("'", "'"), ("`", "`"), ("((", "))"), ("\t", "\n"), ("\ufeff", "")]
 
 RAW = [b"\x80", b"\xbf", b"\xc0", b"\xc3", b"\xe2", b"\xe2\x82", b"\xf0\x9f", b"\xfe", b"\xff", b"\xed\xa0\x80", b"\xc0\xaf",
        b"\xef\xbb\xbf", b"\xc2\xa0", b"\xe2\x80\x8b", b"\x00", b"\x7f", b"\r", b"\t", b"\n"]
@@ -521,7 +526,8 @@ def edits_v2(b, t, e, rng, heavy):
     yield mk(full) + " "
     yield "CVSS:2.0/" + mk(full)
     yield "CVSS:3.1/" + mk(full)
-    yield "(" + mk(full) + ")"
+    for a, z in WRAPPERS:
+        yield a + mk(full) + z                                   # the whole vector quoted / bracketed, as in advisories (NVD: "(AV:N/…)")
     s = mk(full)
     for k in range(0, len(s), max(1, len(s) // 24)):
         yield s[:k] + s[k + 1:]
